@@ -5,9 +5,9 @@
 set -u
 N="$1"; FEAT="${2:-}"
 W=/scratch/seed-$N; O=/scratch/seed-$N-out; L=$O/confirm.log
-exec > "$L" 2>&1
+exec >> "$L" 2>&1
 cd "$W" || exit 2
-git stash list | grep -q . && git stash drop -q
+if [ -z "${EVAL_ONLY:-}" ]; then
 git checkout -q -- . ; git clean -fdq core/tests/seed_demo.rs 2>/dev/null
 git apply "$O/patch.diff" || { echo "PATCH DOES NOT APPLY"; exit 2; }
 echo "== touched files"; git diff --stat
@@ -16,15 +16,17 @@ echo "== build"; cargo build -p rzmq --offline $FEAT 2>&1 | tail -2
 echo "== suite with change"; /root/tools/run_suite.sh "$W" | tee "$O/suite_with.txt"
 cp "$O/demo/seed_demo.rs" core/tests/seed_demo.rs
 echo "== demo WITH change"; cargo test -p rzmq --offline $FEAT --test seed_demo 2>&1 | grep -E "^test |test result" | tee "$O/demo_with.txt"
-git stash -q   # stashes tracked changes only (the patch); the untracked demo stays
+git apply -R "$O/patch.diff"   # (not git stash: the stash is shared between worktrees)
 echo "== demo WITHOUT change"; cargo test -p rzmq --offline $FEAT --test seed_demo 2>&1 | grep -E "^test |test result" | tee "$O/demo_without.txt"
-git stash pop -q; rm -f core/tests/seed_demo.rs
+git apply "$O/patch.diff"; rm -f core/tests/seed_demo.rs
+else TESTS_TOUCHED=$(git diff --name-only | grep -cE '(^|/)tests/|_test' || true); fi
 SEED_W="$W" python3 - "$O" "$TESTS_TOUCHED" <<'PY'
 import sys,json,re
 o=sys.argv[1]
 sw=open(o+'/suite_with.txt').read()
 bad=[l.strip() for l in sw.splitlines() if l.startswith('   ')]
-flaky=('connection_churn','statistical_fairness','test_concurrent_term_and_op','pyzmq','manual_framing')
+# known to fail intermittently at the pinned commit itself when the machine is loaded (5-15 ms timing margins)
+flaky=('connection_churn','statistical_fairness','test_concurrent_term_and_op','pyzmq','manual_framing','test_waitgroup_add_done_wait','shutdown_race')
 real_bad=[b for b in bad if not any(f in b for f in flaky)]
 # a stable test that fails in the loaded full run but passes 3/3 on its own is a load flake
 import subprocess, os
